@@ -94,6 +94,19 @@ Definition rsa_ctor_ok (h : hasht) (n : bytes) (e : N) : bool :=
 (* crypto/rsa signature size: the modulus length in bytes *)
 Definition rsa_sig_len (n : bytes) : nat := length (be_min (be_val n)).
 
+(* crypto/rsa.VerifyPKCS1v15 and VerifyPSS (Go 1.25: crypto/internal/fips140/rsa
+   pkcs1v15.go verifyPKCS1v15 `if pub.Size() != len(sig) { return ErrVerification }`,
+   pkcs1v22.go VerifyPSS `if len(sig) != pub.Size() { return ErrVerification }`)
+   compare the signature length with the modulus length in bytes BEFORE the
+   RSA operation; tink-go adds no length check of its own.  [core] is the rest
+   of the standard verification (an oracle). *)
+Definition std_pkcs1 (core : bytes -> N -> hasht -> bytes -> bytes -> bool)
+    (n : bytes) (e : N) (h : hasht) (d sig : bytes) : bool :=
+  Nat.eqb (length sig) (rsa_sig_len n) && core n e h d sig.
+Definition std_pss (core : bytes -> N -> hasht -> N -> bytes -> bytes -> bool)
+    (n : bytes) (e : N) (h : hasht) (salt : N) (d sig : bytes) : bool :=
+  Nat.eqb (length sig) (rsa_sig_len n) && core n e h salt d sig.
+
 Record ecdsa_key := {
   ek_curve : curve; ek_hash : hasht; ek_enc : sigenc;
   ek_variant : variant; ek_id : N; ek_pub : bytes }.
